@@ -542,7 +542,7 @@ func (e *c15Env) gossiperLists(hash []byte) map[string][]*protobufcompiled.Gossi
 			dd := sha256.Sum256(append([]byte(a), h[:]...))
 			return []*protobufcompiled.Gossiper{{Address: a, Digest: dd[:], Signature: s}}
 		}(),
-		"[long-digest]":   {{Address: k.Addr, Digest: append(d[:], 1, 2), Signature: s}},
+		"[long-digest]": {{Address: k.Addr, Digest: append(d[:], 1, 2), Signature: s}},
 	}
 }
 
@@ -714,6 +714,9 @@ func TestC15(t *testing.T) {
 
 	t.Run("random", func(t *testing.T) {
 		rapid.Check(t, func(rt *rapid.T) {
+			if pastSoftDeadline(st) {
+				return
+			}
 			bytesG := rapid.Custom(func(rt *rapid.T) []byte {
 				return shapeBytes(rapid.SampledFrom(c15ByteLens).Draw(rt, "len"), rapid.Byte().Draw(rt, "salt"))
 			})
